@@ -448,6 +448,18 @@ func (task *Task) Converge() error {
 			return ErrAhead
 		}
 		if localNum == targetNum {
+			if len(localHash) == 32 && len(targetHash) == 32 && !bytes.Equal(localHash, targetHash) {
+				// Same height but another block: the recorded
+				// block was replaced without the chain growing.
+				slog.ErrorContext(ctx, "reorg",
+					"n", localNum,
+					"h", fmt.Sprintf("%.4x", localHash),
+				)
+				if err := task.Delete(pgtx, localNum); err != nil {
+					return fmt.Errorf("deleting during reorg: %w", err)
+				}
+				continue
+			}
 			return ErrNothingNew
 		}
 		delta := min(targetNum-localNum, uint64(task.batchSize))
